@@ -63,12 +63,53 @@ def snap_result(r):
 
 def judge(types_list):
     """run merge_results on fresh Result objects; return msgs, outcome"""
-    from evo.core import result
     rs = [build(t, i) for i, t in enumerate(types_list)]
-    before = [snap_result(r) for r in rs]
-    msgs = []
     skeys = [set(t["skeys"]) for t in types_list]
     akeys = [set(k for k, _ in t["arrays"]) for t in types_list]
+    return judge_rs(rs, skeys, akeys)
+
+
+REPRS = ("int-first", "int-later", "f32-first", "shared-first", "shared-all",
+         "readonly", "list")
+
+
+def judge_repr(case):
+    """results whose arrays come in other representations: integer or
+    float32 dtype (exactly representable values), one array object stored
+    under two keys, read-only arrays, plain lists"""
+    n, L, rep = case["n"], case["len"], case["repr"]
+    t = {"stats": (1.0, 2.0), "arrays": [("a", L), ("b", L)],
+         "skeys": ("rmse", "mean")}
+    rs = [build(t, i) for i in range(n)]
+    for i, r in enumerate(rs):
+        for k in ("a", "b"):
+            a = np.round(r.np_arrays[k])        # integral values
+            r.np_arrays[k] = a
+            if (rep == "int-first" and i == 0) or (rep == "int-later"
+                                                   and i == n - 1):
+                r.np_arrays[k] = a.astype(np.int64)
+            elif rep == "f32-first" and i == 0:
+                r.np_arrays[k] = (a + 0.25).astype(np.float32)
+            elif rep == "readonly":
+                a.setflags(write=False)
+            elif rep == "list" and i == 0:
+                r.np_arrays[k] = a.tolist()
+        if (rep == "shared-first" and i == 0) or rep == "shared-all":
+            r.np_arrays["b"] = r.np_arrays["a"]
+    if rep == "list":
+        # (evo's Result holds arrays; a list is only what a caller may have
+        # put there) - compare as arrays
+        for r in rs:
+            for k in ("a", "b"):
+                r.np_arrays[k] = np.asarray(r.np_arrays[k], dtype=float)
+    keys = [{"rmse", "mean"}] * n
+    return judge_rs(rs, keys, [{"a", "b"}] * n)
+
+
+def judge_rs(rs, skeys, akeys):
+    from evo.core import result
+    before = [snap_result(r) for r in rs]
+    msgs = []
     mismatch = any(s != skeys[0] for s in skeys) or any(a != akeys[0]
                                                         for a in akeys)
     try:
@@ -105,7 +146,8 @@ def judge(types_list):
     for k in akeys[0]:
         same_k = len({r.np_arrays[k].size for r in rs}) == 1
         if equal_len:
-            exp = sum(r.np_arrays[k] for r in rs) / n
+            exp = sum(np.asarray(r.np_arrays[k], dtype=float)
+                      for r in rs) / n
         else:
             exp = np.concatenate([r.np_arrays[k] for r in rs])
         got = np.asarray(m.np_arrays[k])
@@ -181,6 +223,24 @@ def shard_chains(arg):
                 acc.violation("merge-chain", "; ".join(msgs[:2]),
                               {"chain": [f] + list(rest), "n": n},
                               {"kind": "chain"})
+    return acc
+
+
+def repr_part(ctx):
+    acc = Acc()
+    for n in (2, 3):
+        for L in (1, 3):
+            for rep in REPRS:
+                case = {"n": n, "len": L, "repr": rep}
+                msgs, outcome = judge_repr(case)
+                acc.count("evaluations")
+                acc.count("transitions")
+                acc.count("nontrivial")
+                acc.outcome("repr:" + outcome)
+                if msgs:
+                    acc.violation("merge-repr", "%s: %s" %
+                                  (case, "; ".join(msgs[:2])), case,
+                                  {"kind": "repr"})
     return acc
 
 
@@ -383,6 +443,7 @@ def run(ctx):
                            [(6, s) for s in shard(range(nchain), 16)]))
     # chains of 8 over 3 types
     acc.merge(res_part(ctx))
+    acc.merge(repr_part(ctx))
     acc.counters["states"] = acc.counters["evaluations"]
     acc.rule = (
         "all lists of 1..3 results over %d result types (3 statistic value "
@@ -392,7 +453,9 @@ def run(ctx):
         "selection of 1..3 of 6 result files (three plain ones, a file name "
         "with glob metacharacters next to the sibling it would match, a NaN "
         "statistic, a different set of statistics) x use_filenames x merge. "
-        "non-trivial = lists mixing key insertion orders or needing the "
+        "merge_results also on arrays in other representations (int64 / "
+        "float32 first or later, one array object under two keys, read-only, "
+        "lists). non-trivial = lists mixing key insertion orders or needing the "
         "append strategy" % (ntypes, list(lengths),
                              " and 6" if ctx.thorough else "", nchain))
     acc.bounds = {"list_length": 3, "chain_length": 6 if ctx.thorough else 4}
@@ -412,6 +475,8 @@ def replay(part, case):
         files = _make_result_files(os.getcwd())
         return [v["msg"] for v in iterables_part(files).violations
                 if v["case"] == case]
+    if part == "merge-repr":
+        return judge_repr(case)[0]
     if part == "evo_res":
         wd = os.getcwd()
         files = _make_result_files(wd)
